@@ -218,12 +218,16 @@ RefsFollow(o, cx, ev, res, o2, cx2) ==
        IF m = m2 THEN
           \A r \in TRefs(o, cx, m) \cap TRefs(o2, cx2, m) :
              LET t == Designated(o, cx, m, r) IN
-             IF t # 0 /\ t \in sub THEN Designated(o2, cx2, m, r) = t
+             \* (the reference designates the same element object: by its text, and as the library itself resolves it)
+             IF t # 0 /\ t \in sub THEN /\ Designated(o2, cx2, m, r) = t
+                                        /\ (o.n[r].tgt.t = "ok" /\ o.n[r].tgt.v = t) => (o2.n[r].tgt.t = "ok" /\ o2.n[r].tgt.v = t)
              ELSE TRefText(o2, r) = TRefText(o, r)
        ELSE
           \A r \in TRefs(o, cx, m) \cap sub :
              LET t == Designated(o, cx, m, r) IN
-             (t # 0 /\ t \in sub /\ TIsRefText(o2, r)) => Designated(o2, cx2, m2, r) = t
+             (t # 0 /\ t \in sub /\ TIsRefText(o2, r)) =>
+                 /\ Designated(o2, cx2, m2, r) = t
+                 /\ (o.n[r].tgt.t = "ok" /\ o.n[r].tgt.v = t) => (o2.n[r].tgt.t = "ok" /\ o2.n[r].tgt.v = t)
 
 \* ---------------------------------------------------------------------------------------------- C13 (action)
 ChildAllowed(k, name, v) == \E i \in 1..Len(Schema[k].children) :
